@@ -24,7 +24,7 @@ import (
 	"golang.org/x/tools/go/packages"
 )
 
-const e2TestFile = verifRoot + "/e2/regbfs_test.go.txt"
+var e2TestFile = verifRoot + "/e2/regbfs_test.go.txt"
 
 type e2Op struct {
 	Kind   string `json:"kind"`
